@@ -42,6 +42,8 @@ def seeds_table():
             if line.startswith("#"):
                 title = re.sub(r"^#+\s*", "", line).strip()
                 break
+        if not title and m.get("breaks"):
+            title = re.sub(r"\s+", " ", str(m["breaks"])).strip()
         files = sorted(set(re.findall(r"^\+\+\+ b/(\S+)", open(d + "/patch.diff").read(), re.M)))
         det = m.get("detected_by")
         if det:
